@@ -138,6 +138,7 @@ func VerifResp_Lifecycle() {
 	for round := 0; round < 3; round++ {
 		Drain()
 		ps := e.RM.PeerState(pA)
+		verifrt.Eventf("closing round %d: states=%v active=%v pending=%v", round, ps.RequestStates, ps.TaskQueueState.Active, ps.TaskQueueState.Pending)
 		any := false
 		for r := 0; r < nreq; r++ {
 			if st, ok := ps.RequestStates[kit.ReqID(r)]; ok && st == graphsync.Paused {
@@ -162,6 +163,9 @@ func VerifResp_Lifecycle() {
 		kk := key{pA, kit.ReqID(r)}
 		nc, ncan, nerr := len(e.Completed[kk]), e.Cancelled[kk], e.NetErrors[kk]
 		verifrt.Eventf("req%d %s", r, e.Outcome(kk))
+		if nc == 0 && ncan == 0 && nerr == 0 {
+			verifrt.DumpGoroutines()
+		}
 		outcomes := 0
 		if nc > 0 {
 			outcomes++
